@@ -461,4 +461,17 @@ def c16_centre(start, end, radius, clockwise):
     if abs(d1 - abs(radius)) > tol or abs(d2 - abs(radius)) > tol:
         out.append("centre (%r,%r) is at distance %r from the start and %r from the end, |R|=%r"
                    % (cx, cy, d1, d2, abs(radius)))
+    elif start[0] == end[0]:
+        # the commanded sweep: R > 0 the arc of at most half a turn, R < 0 the one of at least half.
+        # Only for chords parallel to the Y axis: with the perpendicular (-dy, -dx) of known finding
+        # K-D10 the centre lies on the wrong side for chords parallel to the X axis (same defect).
+        a0 = math.atan2(start[1] - cy, start[0] - cx)
+        a1 = math.atan2(end[1] - cy, end[0] - cx)
+        sweep = (a0 - a1) % (2 * math.pi) if clockwise else (a1 - a0) % (2 * math.pi)
+        if radius > 0 and sweep > math.pi + 1e-6:
+            out.append("R=%r > 0 but the centre (%r,%r) gives a sweep of %r rad in the commanded direction"
+                       % (radius, cx, cy, sweep))
+        if radius < 0 and sweep < math.pi - 1e-6:
+            out.append("R=%r < 0 but the centre (%r,%r) gives a sweep of only %r rad in the commanded direction"
+                       % (radius, cx, cy, sweep))
     return out
